@@ -93,7 +93,30 @@ func (ex *Exec) contractCall(blk *Block, recv Value, lead []Value, args []Value,
 			continue
 		}
 		var inst Value
-		if ex.curBlock != nil && ex.curBlock != blk {
+		// ghostarg Callee name = expr: the block under verification supplies the ghost explicitly
+		if ex.curBlock != nil && ex.curBlock != blk && len(ex.frames) == 2 {
+			for _, c := range ex.curBlock.Clauses {
+				if c.Kind != "ghostarg" {
+					continue
+				}
+				f := strings.Fields(c.Text)
+				eq := strings.Index(c.Text, "=")
+				if len(f) < 4 || eq < 0 || f[2] != "=" {
+					unsupported("ghostarg clause wants 'Callee name = expr': %q", c.Text)
+				}
+				if f[0] != blk.Key() || f[1] != g[0] {
+					continue
+				}
+				e, err := ex.prog.CheckExprAt(ex.cur().pkg, site.Pos(), strings.TrimSpace(c.Text[eq+1:]))
+				if err != nil {
+					unsupported("ghostarg %s does not type-check at %s: %v", c.Text, ex.pos(site.Pos()), err)
+				}
+				ex.suppress++
+				inst = ex.convertAssign(ex.eval(e, st), gl.Typ, st)
+				ex.suppress--
+			}
+		}
+		if inst == nil && ex.curBlock != nil && ex.curBlock != blk {
 			for _, cg := range ex.curBlock.Ghosts {
 				if cg[1] == g[1] && ex.curBlock.Pkg == blk.Pkg {
 					if cl := ex.ghostLoc(ex.curBlock.Pkg, cg[0]); cl != nil {
